@@ -1,9 +1,16 @@
-(* C01 - add, sub, mul, div, sqrt correctly rounded. Statements only; proofs are in theories/. *)
-From Coq Require Import ZArith Reals.
+(* C01 - add, subtract, multiply, divide and square root are correctly rounded.
+   Property theorems only: each is closed by [exact <lemma of theories/>] and followed by Print Assumptions.
+   [ieee_result md v pref zs d fl] (theories/Base.v) is the conjunction of the IEEE 754-2008 clauses: value = Flocq's
+   round radix10 (FLT_exp (-6176) 34) of the exact real v; overflow result by mode; sign; preferred exponent when exact,
+   least exponent when inexact; inexact / underflow (tininess before rounding, only when inexact) / overflow flags.
+   [finite_result md v pref zs l]: the accepted-outcome list l of the model is the single canonical encoding of such a datum. *)
+From Coq Require Import ZArith Reals Bool List.
 From Flocq Require Import Core.Core Calc.Bracket.
-From DV Require Import Base RoundProofs.
+From DV Require Import Base RoundProofs Bid BidProofs Arith ArithProofs OpsArith OpsArithProofs.
+Import ListNotations.
 Open Scope Z_scope.
 
+(* the rounding core, for every real x, every mode, every located triple *)
 Theorem C01_round_pack_correct : forall md x s c e l pref zs,
   0 <= c -> inbetween_float radix10 c e (Rabs x) l ->
   (x <> 0%R -> s = Rlt_bool x 0) ->
@@ -11,3 +18,89 @@ Theorem C01_round_pack_correct : forall md x s c e l pref zs,
   let '(d, fl) := round_pack md s c e l pref zs in ieee_result md x pref zs d fl.
 Proof. exact round_pack_correct. Qed.
 Print Assumptions C01_round_pack_correct.
+
+Theorem C01_add : forall md x y sx cx qx sy cy qy,
+  0 <= x < P128 -> 0 <= y < P128 -> decode x = Fin sx cx qx -> decode y = Fin sy cy qy ->
+  finite_result md (D2R (decode x) + D2R (decode y)) (Z.min qx qy) (zs_add md sx sy) (m_add md x y).
+Proof. exact m_add_finite. Qed.
+Print Assumptions C01_add.
+
+Theorem C01_sub : forall md x y sx cx qx sy cy qy,
+  0 <= x < P128 -> 0 <= y < P128 -> decode x = Fin sx cx qx -> decode y = Fin sy cy qy ->
+  finite_result md (D2R (decode x) - D2R (decode y)) (Z.min qx qy) (zs_add md sx (negb sy)) (m_sub md x y).
+Proof. exact m_sub_finite. Qed.
+Print Assumptions C01_sub.
+
+Theorem C01_mul : forall md x y sx cx qx sy cy qy,
+  0 <= x < P128 -> 0 <= y < P128 -> decode x = Fin sx cx qx -> decode y = Fin sy cy qy ->
+  finite_result md (D2R (decode x) * D2R (decode y)) (qx + qy) (xorb sx sy) (m_mul md x y).
+Proof. exact m_mul_finite. Qed.
+Print Assumptions C01_mul.
+
+Theorem C01_div : forall md x y sx cx qx sy cy qy,
+  0 <= x < P128 -> 0 <= y < P128 -> decode x = Fin sx cx qx -> decode y = Fin sy cy qy ->
+  cx <> 0 -> cy <> 0 ->
+  finite_result md (D2R (decode x) / D2R (decode y)) (qx - qy) (xorb sx sy) (m_div md x y).
+Proof. exact m_div_finite. Qed.
+Print Assumptions C01_div.
+
+Theorem C01_sqrt : forall md x cx qx,
+  0 <= x < P128 -> decode x = Fin false cx qx -> cx <> 0 ->
+  finite_result md (sqrt (D2R (decode x))) (Z.div2 qx) false (m_sqrt md x).
+Proof. exact m_sqrt_finite. Qed.
+Print Assumptions C01_sqrt.
+
+(* special operands: infinities, zero divisors, invalid operations *)
+Theorem C01_add_specials : forall md s s' sy cy qy,
+  add_dec md (Inf s) (Inf s') = (if Bool.eqb s s' then out1 (Inf s) 0 else invalid_out) /\
+  add_dec md (Inf s) (Fin sy cy qy) = out1 (Inf s) 0 /\
+  add_dec md (Fin sy cy qy) (Inf s) = out1 (Inf s) 0.
+Proof. exact add_specials. Qed.
+Print Assumptions C01_add_specials.
+
+Theorem C01_sub_is_add_neg : forall md x y, is_nan (decode y) = false ->
+  m_sub md x y = add_dec md (decode x) (neg_dec (decode y)).
+Proof. exact m_sub_is_add_neg. Qed.
+Print Assumptions C01_sub_is_add_neg.
+
+Theorem C01_mul_specials : forall md x y,
+  is_nan (decode x) = false -> is_nan (decode y) = false -> is_inf (decode x) || is_inf (decode y) = true ->
+  m_mul md x y = if is_zero (decode x) || is_zero (decode y) then invalid_out
+                 else out1 (Inf (xorb (sign_of (decode x)) (sign_of (decode y)))) 0.
+Proof. exact mul_specials. Qed.
+Print Assumptions C01_mul_specials.
+
+Theorem C01_div_specials : forall md sx sy cx qx cy qy,
+  (forall x y, decode x = Inf sx -> decode y = Inf sy -> m_div md x y = invalid_out) /\
+  (forall x y, decode x = Inf sx -> decode y = Fin sy cy qy -> m_div md x y = out1 (Inf (xorb sx sy)) 0) /\
+  (forall x y, decode x = Fin sx cx qx -> decode y = Inf sy -> m_div md x y = out1 (Fin (xorb sx sy) 0 qmin) 0) /\
+  (forall x y, decode x = Fin sx 0 qx -> decode y = Fin sy 0 qy -> m_div md x y = invalid_out) /\
+  (forall x y, decode x = Fin sx cx qx -> cx <> 0 -> decode y = Fin sy 0 qy -> m_div md x y = out1 (Inf (xorb sx sy)) F_DBZ) /\
+  (forall x y, decode x = Fin sx 0 qx -> decode y = Fin sy cy qy -> cy <> 0 -> m_div md x y = out1 (Fin (xorb sx sy) 0 (clampq (qx - qy))) 0).
+Proof. exact div_specials. Qed.
+Print Assumptions C01_div_specials.
+
+Theorem C01_sqrt_specials : forall md x,
+  (decode x = Inf false -> m_sqrt md x = out1 (Inf false) 0) /\
+  (decode x = Inf true -> m_sqrt md x = invalid_out) /\
+  (forall s q, decode x = Fin s 0 q -> m_sqrt md x = out1 (Fin s 0 (Z.div2 q)) 0) /\
+  (forall c q, decode x = Fin true c q -> c <> 0 -> m_sqrt md x = invalid_out).
+Proof. exact sqrt_specials. Qed.
+Print Assumptions C01_sqrt_specials.
+
+(* NaN operands are handed to the common NaN rule (its content is C12's theorem nan_outcomes_spec) *)
+Theorem C01_nan_operands : forall md x y z,
+  (is_nan (decode x) || is_nan (decode y) = true -> m_add md x y = nan_outcomes [decode x; decode y]) /\
+  (is_nan (decode x) || is_nan (decode y) = true -> m_sub md x y = nan_outcomes [decode x; decode y]) /\
+  (is_nan (decode x) || is_nan (decode y) = true -> m_mul md x y = nan_outcomes [decode x; decode y]) /\
+  (is_nan (decode x) || is_nan (decode y) = true -> m_div md x y = nan_outcomes [decode x; decode y]) /\
+  (is_nan (decode x) = true -> m_sqrt md x = nan_outcomes [decode x]) /\
+  (is_nan (decode x) || is_nan (decode y) || is_nan (decode z) = true -> m_fma md x y z = nan_outcomes [decode x; decode y; decode z]).
+Proof. exact arith_nan_operands. Qed.
+Print Assumptions C01_nan_operands.
+
+(* non-vacuity: the design document's witness 1.000E-23 + -4.5E-57 under Downward is ...9995E-57, inexact *)
+Example C01_witness :
+  m_add RDN (encode (Fin false 1000 (-26))) (encode (Fin true 45 (-58))) =
+  [([encode (Fin false 9999999999999999999999999999999995 (-57))], F_INX)].
+Proof. vm_compute. reflexivity. Qed.
